@@ -7,7 +7,7 @@ STRINGS = ['plain', "it's", 'say "hi"', 'back\\slash', '100%', 'ünï',
 
 
 def q_leaves():
-    from django.db.models import Q
+    from django.db.models import Q, F, Value
     return [
         ('Q(leaf)', Q(b__gt=0)),
         ('Q(leaf,str)', Q(a="it's \"q\" %")),
@@ -15,6 +15,8 @@ def q_leaves():
         ('Q(two-kwargs)', Q(b__gt=0, a='x')),
         ('Q(isnull)', Q(b__isnull=False)),
         ('Q(in-list)', Q(b__in=[1, 2])),
+        ('Q(F-operand)', Q(b__gt=F('c'))),
+        ('Q(Value-operand)', Q(a=Value('x'))),
     ]
 
 
@@ -27,7 +29,7 @@ def q_trees(depth=2):
     if hasattr(Q, 'XOR'):
         ops.append(('^', lambda x, y: x ^ y))
     level1 = []
-    base = level0[:3]
+    base = level0[:3] + level0[-2:]
     for (ln, lq), (rn, rq) in itertools.product(base, base):
         for on, op in ops:
             level1.append(('(%s %s %s)' % (ln, on, rn), op(lq, rq)))
